@@ -153,6 +153,7 @@ func (srv *Srv) flush(req *SrvReq) {
 		r.flushreq = req
 	}
 	conn.Unlock()
+	verifPoint("flush.lookup", req, r)
 
 	if r == nil {
 		// there are no requests with that tag
@@ -167,6 +168,7 @@ func (srv *Srv) flush(req *SrvReq) {
 		r.status |= reqFlush
 	}
 	r.Unlock()
+	verifPoint("flush.mark", req, r, int(status))
 
 	if (status & (reqWork | reqSaved)) == 0 {
 		r.Respond()
